@@ -58,7 +58,11 @@ class MeshTet2(MeshTet1):
         return replace(M, doflocs=doflocs)
 
     def _uniform(self):
-        return MeshTet2.from_mesh(MeshTet1.from_mesh(self).refined())
+        # the order of the children depends on the chosen diagonal: let
+        # MeshTet1 propagate the subdomains instead of the generic fallback
+        m = replace(MeshTet1.from_mesh(self),
+                    _subdomains=self._subdomains)._uniform()
+        return replace(MeshTet2.from_mesh(m), _subdomains=m._subdomains)
 
     def _adaptive(self, marked):
         return MeshTet2.from_mesh(MeshTet1.from_mesh(self).refined(marked))
